@@ -151,7 +151,11 @@ def mutate(g, prog):
     if kind == "branch":
         i = rng.choice((1, 2))
         a = list(n.a)
-        a[i] = ill_typed_replacement(g, n.t)
+        if n.t in (INT, UINT) and n.a[3 - i].const:
+            # the other branch is an untyped literal: it adopts int as well as uint, so swap in a non-integer
+            a[i] = g.expr(rng.choice((STR, BOOL)), g.max_depth - 1) if rng.random() < 0.5 else N("prop", DOUBLE, (N("obj", PTR, v="a", const=True),), v="dval")
+        else:
+            a[i] = ill_typed_replacement(g, n.t)
         n.a = tuple(a)
         return p, "ternary branch of type %s replaced by %s" % (n.t, a[i].t)
     nb = rng.choice((INT, STR, PTR, DOUBLE))
